@@ -62,7 +62,7 @@ def template_kind(v: ast.expr) -> Tuple[str, bool, Optional[ast.expr]]:
     return t, False, None
 
 
-YAML_TYPES = {"bool": bool, "str": str, "strseq": list, "list": list, "dict": dict, "filename": str, "int": int}
+YAML_TYPES = {"bool": bool, "str": str, "strseq": list, "list": list, "Sequence": list, "dict": dict, "filename": str, "int": int}
 
 
 def rule_source_order(rep: Report, repo: Repo, rule: str) -> str:
@@ -232,8 +232,13 @@ def run(rep: Report, repo: Repo, tier: str) -> None:
             if ok and ann == "bool" and kind != "bool":
                 ok, msg = False, (f"the template validates the boolean option '{sec}.{key}' as {kind}: a value of another type "
                                   f"(a number) passes validation and is silently converted instead of being rejected")
+            if ok and ann.replace("typing.", "").lower().startswith("list[") and kind == "list":
+                ok, msg = False, (f"the template validates the list option '{sec}.{key}' as `list`, which confuse turns into "
+                                  f"TypeTemplate(collections.abc.Sequence): a plain string is a Sequence too, passes validation and is "
+                                  f"taken apart into one-character items instead of being rejected")
             rep.check(ok, "C16-R3", "cminx.config", f"{sec}.{key}: template={kind}{'?' if optional else ''} field={ann} yaml={yk.get(key)!r}"[:110],
-                      msg)
+                      msg, witness="-s file with  input: {exclude_filters: \"build/\"}  (a string where a list is expected)",
+                      key=f"C16-R3|{sec}.{key}-template")
     rep.floor("C16-R3", 25, "option triples")
 
     # ---- R4 union of exclude filters, R6 settings object from validated dict
@@ -429,19 +434,38 @@ def rule_output_dir_resolution(rep: Report, repo: Repo, rule: str) -> None:
             for s2 in st.body:
                 if isinstance(s2, ast.Assign) and isinstance(s2.value, ast.Constant) and s2.value.value is True:
                     flag_var = norm(s2.targets[0])
-        if isinstance(st, ast.Assign) and "['relative_to_config']" in norm(st.value) and ".get(" in norm(st.value) \
-                and "config_template" not in norm(st.value):
+    direct_flag = f"{cfg_var}['output']['relative_to_config'].get()"
+
+    def is_flag(e: ast.expr) -> bool:
+        """the value of the option itself: X.get(), X.get(bool), bool(X.get()), True if X.get() else False, not not X.get()"""
+        t = norm(e)
+        if t in (direct_flag, f"bool({direct_flag})", direct_flag[:-1] + "bool)"):
+            return True
+        if isinstance(e, ast.IfExp) and isinstance(e.body, ast.Constant) and e.body.value is True \
+                and isinstance(e.orelse, ast.Constant) and e.orelse.value is False:
+            return is_flag(e.test)
+        if isinstance(e, ast.UnaryOp) and isinstance(e.op, ast.Not) and isinstance(e.operand, ast.UnaryOp) \
+                and isinstance(e.operand.op, ast.Not):
+            return is_flag(e.operand.operand)
+        return False
+    for st in main.body:
+        if isinstance(st, ast.Assign) and len(st.targets) == 1 and is_flag(st.value):
             flag_var = norm(st.targets[0])
     passed = False
     from .fsrules import resolve_locals
-    direct_flag = f"{cfg_var}['output']['relative_to_config'].get()"
+    from ..model import func_params as _fp
+    first_formal = (_fp(repo.func("cminx.config", "config_template")) or [None])[0]
     for c in calls_in(main):
         if isinstance(c.func, ast.Attribute) and c.func.attr == "get" and norm(c.func.value) == cfg_var and c.args:
             targ = resolve_locals(c.args[0], main, skip=frozenset({cfg_var}))          # the template may be held in a local first
-            if isinstance(targ, ast.Call) and targ.args and call_name(targ) == "config_template":
-                a0 = norm(targ.args[0])
-                passed = (flag_var is not None and a0 == flag_var) or a0 in (direct_flag, f"bool({direct_flag})")
-                extra = [k.arg for k in targ.keywords] + [norm(a) for a in targ.args[1:]]
+            if isinstance(targ, ast.Call) and (targ.args or targ.keywords) and call_name(targ) == "config_template":
+                # the flag is the template's first formal: passed by position or by that name
+                a0_node = targ.args[0] if targ.args else next((k.value for k in targ.keywords if k.arg == first_formal), None)
+                if a0_node is None:
+                    continue
+                a0 = norm(a0_node)
+                passed = (flag_var is not None and a0 == flag_var) or is_flag(a0_node)
+                extra = [k.arg for k in targ.keywords if not (not targ.args and k.arg == first_formal)] + [norm(a) for a in targ.args[1:]]
                 if extra:
                     passed = False
                 if passed and flag_var is None:
